@@ -1,0 +1,203 @@
+// Copyright (c) 2025 Contributors to the Eclipse Foundation
+//
+// See the NOTICE file(s) distributed with this work for additional
+// information regarding copyright ownership.
+//
+// This program and the accompanying materials are made available under the
+// terms of the Apache Software License 2.0 which is available at
+// https://www.apache.org/licenses/LICENSE-2.0, or the MIT license
+// which is available at https://opensource.org/licenses/MIT.
+//
+// SPDX-License-Identifier: Apache-2.0 OR MIT
+
+//! Verification hooks (cargo feature `verif_hooks`, off by default).
+//!
+//! The crate-private `IntoCInt` trait maps every Rust error enum to the `c_int` code of the
+//! corresponding C enum. These public wrappers expose exactly that mapping, one function per
+//! `impl IntoCInt for X`, so that an external checker can enumerate it. Nothing else lives here.
+
+use core::ffi::c_int;
+
+use super::IntoCInt;
+
+macro_rules! hook {
+    ($name:ident, $ty:ty) => {
+        pub fn $name(e: $ty) -> c_int {
+            e.into_c_int()
+        }
+    };
+}
+
+hook!(
+    attribute_verification_error_into_c_int,
+    iceoryx2::service::attribute::AttributeVerificationError
+);
+hook!(
+    attribute_definition_error_into_c_int,
+    iceoryx2::service::attribute::AttributeDefinitionError
+);
+hook!(
+    config_creation_error_into_c_int,
+    iceoryx2::config::ConfigCreationError
+);
+hook!(
+    listener_wait_error_into_c_int,
+    iceoryx2_cal::event::ListenerWaitError
+);
+hook!(
+    semantic_string_error_into_c_int,
+    iceoryx2_bb_container::semantic_string::SemanticStringError
+);
+hook!(node_list_failure_into_c_int, iceoryx2::node::NodeListFailure);
+hook!(
+    service_remove_error_into_c_int,
+    iceoryx2::service::ServiceRemoveError
+);
+hook!(node_wait_failure_into_c_int, iceoryx2::node::NodeWaitFailure);
+hook!(
+    node_cleanup_failure_into_c_int,
+    iceoryx2::node::NodeCleanupFailure
+);
+hook!(
+    node_creation_failure_into_c_int,
+    iceoryx2::node::NodeCreationFailure
+);
+hook!(
+    notifier_notify_error_into_c_int,
+    iceoryx2::port::notifier::NotifierNotifyError
+);
+hook!(
+    client_create_error_into_c_int,
+    iceoryx2::service::port_factory::client::ClientCreateError
+);
+hook!(
+    listener_create_error_into_c_int,
+    iceoryx2::port::listener::ListenerCreateError
+);
+hook!(
+    notifier_create_error_into_c_int,
+    iceoryx2::port::notifier::NotifierCreateError
+);
+hook!(
+    backpressure_strategy_into_c_int,
+    iceoryx2::prelude::BackpressureStrategy
+);
+hook!(
+    publisher_create_error_into_c_int,
+    iceoryx2::port::publisher::PublisherCreateError
+);
+hook!(
+    reader_create_error_into_c_int,
+    iceoryx2::port::reader::ReaderCreateError
+);
+hook!(
+    server_create_error_into_c_int,
+    iceoryx2::service::port_factory::server::ServerCreateError
+);
+hook!(
+    subscriber_create_error_into_c_int,
+    iceoryx2::port::subscriber::SubscriberCreateError
+);
+hook!(
+    writer_create_error_into_c_int,
+    iceoryx2::port::writer::WriterCreateError
+);
+hook!(send_error_into_c_int, iceoryx2::port::SendError);
+hook!(loan_error_into_c_int, iceoryx2::port::LoanError);
+hook!(
+    entry_handle_error_into_c_int,
+    iceoryx2::port::reader::EntryHandleError
+);
+hook!(
+    request_send_error_into_c_int,
+    iceoryx2::port::client::RequestSendError
+);
+hook!(
+    allocation_grow_error_into_c_int,
+    iceoryx2_cal::shm_allocator::AllocationGrowError
+);
+hook!(
+    service_details_error_into_c_int,
+    iceoryx2::service::ServiceDetailsError
+);
+hook!(
+    service_list_error_into_c_int,
+    iceoryx2::service::ServiceListError
+);
+hook!(
+    blackboard_open_error_into_c_int,
+    iceoryx2::service::builder::blackboard::BlackboardOpenError
+);
+hook!(
+    blackboard_create_error_into_c_int,
+    iceoryx2::service::builder::blackboard::BlackboardCreateError
+);
+hook!(
+    event_open_error_into_c_int,
+    iceoryx2::service::builder::event::EventOpenError
+);
+hook!(
+    event_create_error_into_c_int,
+    iceoryx2::service::builder::event::EventCreateError
+);
+hook!(
+    event_open_or_create_error_into_c_int,
+    iceoryx2::service::builder::event::EventOpenOrCreateError
+);
+hook!(
+    publish_subscribe_open_error_into_c_int,
+    iceoryx2::service::builder::publish_subscribe::PublishSubscribeOpenError
+);
+hook!(
+    publish_subscribe_create_error_into_c_int,
+    iceoryx2::service::builder::publish_subscribe::PublishSubscribeCreateError
+);
+hook!(
+    publish_subscribe_open_or_create_error_into_c_int,
+    iceoryx2::service::builder::publish_subscribe::PublishSubscribeOpenOrCreateError
+);
+hook!(
+    request_response_open_error_into_c_int,
+    iceoryx2::service::builder::request_response::RequestResponseOpenError
+);
+hook!(
+    request_response_create_error_into_c_int,
+    iceoryx2::service::builder::request_response::RequestResponseCreateError
+);
+hook!(
+    request_response_open_or_create_error_into_c_int,
+    iceoryx2::service::builder::request_response::RequestResponseOpenOrCreateError
+);
+hook!(
+    service_name_error_into_c_int,
+    iceoryx2::service::service_name::ServiceNameError
+);
+hook!(
+    signal_handling_mode_into_c_int,
+    iceoryx2::signal_handling_mode::SignalHandlingMode
+);
+hook!(receive_error_into_c_int, iceoryx2::port::ReceiveError);
+hook!(
+    connection_failure_into_c_int,
+    iceoryx2::port::update_connections::ConnectionFailure
+);
+hook!(
+    waitset_run_error_into_c_int,
+    iceoryx2::waitset::WaitSetRunError
+);
+hook!(
+    waitset_run_result_into_c_int,
+    iceoryx2::waitset::WaitSetRunResult
+);
+hook!(
+    waitset_attachment_error_into_c_int,
+    iceoryx2::waitset::WaitSetAttachmentError
+);
+hook!(
+    waitset_create_error_into_c_int,
+    iceoryx2::waitset::WaitSetCreateError
+);
+hook!(
+    entry_handle_mut_error_into_c_int,
+    iceoryx2::port::writer::EntryHandleMutError
+);
